@@ -84,6 +84,8 @@ class SimRedis:
         self.on_command = None  # hook(conn_id, args) before execution
         self.ver: dict[bytes, int] = {}  # bumped by every write command naming the key (WATCH support)
         self.watch_aborts = 0
+        self.takes: dict[str, int] = {}  # message id -> how often a consumer marked it as taken (HSET <msg> _reject_to)
+        self.marker_reads: dict[str, list] = {}  # message id -> value of takes[id] at every read of the marker (reject)
 
     def start(self) -> None:
         loop = self.sim.loop
@@ -230,6 +232,9 @@ class SimRedis:
         for i in range(2, len(a), 2):
             n += a[i] not in h
             h[a[i]] = a[i + 1]
+            if a[i] == b"_reject_to":
+                id_ = a[1].rsplit(b":", 1)[-1].decode()
+                self.takes[id_] = self.takes.get(id_, 0) + 1
         return n
 
     def cmd_hsetnx(self, a):
@@ -246,6 +251,9 @@ class SimRedis:
 
     def cmd_hmget(self, a):
         h = self._get(a[1], "hash") or {}
+        if b"_reject_to" in a[2:]:
+            id_ = a[1].rsplit(b":", 1)[-1].decode()
+            self.marker_reads.setdefault(id_, []).append(self.takes.get(id_, 0))
         return [h.get(f) for f in a[2:]]
 
     def cmd_hdel(self, a):
